@@ -40,6 +40,7 @@ typedef struct {
     uint64_t max_yields;
     int64_t max_sim_ns;
     int64_t clock_phase_ns;
+    int64_t tick_ns;         /* every clock read advances simulated time by this much (CPU time passes) */
     int pipe_size;           /* F_SETPIPE_SZ for new pipes (0 = leave) */
     int sock_buf;            /* SO_SNDBUF/SO_RCVBUF for new sockets (0 = leave) */
     int monitor;             /* C18: capability monitor active, operations are refused */
